@@ -4,7 +4,7 @@ import FcpptModel.Spec.C03
 -/
 namespace Fcppt.C03
 
-theorem bind_ok_iff (x : Except ExcKind Unit) (y : Unit → Except ExcKind Unit) :
+theorem bind_ok_iff (x : Except Exc Unit) (y : Unit → Except Exc Unit) :
     (x >>= y) = .ok () ↔ x = .ok () ∧ y () = .ok () := by
   cases x with
   | error e => simp [bind, Except.bind]
@@ -27,10 +27,10 @@ mutual
 theorem construct_iff : ∀ p : OP, construct p = .ok () ↔ p.WellFormed
   | .arg .. => by simp [construct, OP.WellFormed]
   | .unit .. => by simp [construct, OP.WellFormed]
-  | .flag _ sh lg act inact => by
+  | .flag _ sh lg act inact _ => by
     simp only [construct, OP.WellFormed, bind_ok_iff, checkShortLong_iff]
     cases h : act.beqBase inact <;> simp
-  | .opt _ sh lg _ _ => by simp only [construct, OP.WellFormed, checkShortLong_iff]
+  | .opt _ sh lg _ _ _ => by simp only [construct, OP.WellFormed, checkShortLong_iff]
   | .unitSwitch _ sh lg => by simp only [construct, OP.WellFormed, checkShortLong_iff]
   | .optional p => by simp only [construct, OP.WellFormed, construct_iff p]
   | .many p => by simp only [construct, OP.WellFormed, construct_iff p]
@@ -55,9 +55,9 @@ theorem construct_iff : ∀ p : OP, construct p = .ok () ↔ p.WellFormed
       intro _ _ hd
       have := (dupFree_iff _).mpr hd
       simp [h] at this
-theorem constructSubs_iff : ∀ subs : List (String × String × OP), constructSubs subs = .ok () ↔ WellFormedSubs subs
+theorem constructSubs_iff : ∀ subs : Subs, constructSubs subs = .ok () ↔ WellFormedSubs subs
   | [] => by simp [constructSubs, WellFormedSubs]
-  | (_, _, p) :: r => by
+  | (_, _, _, p) :: r => by
     simp only [constructSubs, WellFormedSubs, bind_ok_iff, construct_iff p, constructSubs_iff r]
 end
 
